@@ -449,7 +449,7 @@ def helper_closure(prog, fi, depth=3):
                 if c.qual in seen:
                     continue
                 same_cls = owner is not None and c.cls is not None and (c.cls.name == owner.name or prog.is_subclass(owner.name, c.cls.name))
-                same_mod = c.module is f.module and c.cls is None
+                same_mod = c.cls is None and (c.module is f.module or c.name.startswith("_"))   # a private helper imported from a sibling module is still a helper
                 nested = c.parent is not None and c.parent.qual in seen
                 if same_cls or same_mod or nested:
                     seen[c.qual] = c
